@@ -27,10 +27,11 @@ package server
 //@ func makeRequest
 //@   assume-at after call Get #1 : testMakeRequestDialContext == nil     -- test hook, nil outside _test.go
 //@   modifies requestURL.Scheme, headers[all]
+//@   ensures result.1 == nil ==> result.0 != nil
 
 //@ func makeRequestWithRetry
 //@   modifies requestURL.Scheme, headers[all], regOpts.Token
-//@   ensures result.1 == nil ==> result.0 != nil && result.0.StatusCode < 400
+//@   assert-at return #6 : resp != nil && resp.StatusCode < 400 && resp.StatusCode != 401    -- images.go:729, the only successful return (ordinals: see ./check C03 --list)
 
 // ---- trusted library contracts used by the pull path (only frames: what a call may change in
 // ---- memory the verified functions can see; network/file-system effects are not modelled).
@@ -128,7 +129,18 @@ package server
 //@   assume-at after call LoadOrStore #1 : result.1 ==> tagis(result.0, "*blobDownload")     -- only *blobDownload values are ever stored in blobDownloadManager
 //@   assume-at call Wait #1 : ok ==> download.Digest == opts.digest       -- entries are stored under their own digest
 
+// Wait: b.Digest is written only by the composite literal in downloadBlob. The loop invariant cannot
+// be kept by govc: the call through the func-typed parameter fn forgets the whole heap (no contract
+// key for such a call) - listed as undecided; the slice b.Digest[7:19] itself is discharged from it.
+//@ extern func (*blobDownload).acquire
+//@   modifies nothing
+//@ extern func (*blobDownload).release
+//@   modifies nothing
 //@ func (*blobDownload).Wait
+//@   requires len(b.Digest) >= 19
+//@   loop 1 invariant b.Digest == old(b.Digest)
+
+//@ func (*blobDownload).Run
 //@   requires len(b.Digest) >= 19
 
 // ==== C03 (B): order of effects in PullModel ====
@@ -175,11 +187,81 @@ package server
 //@   loop 2 invariant ghost_wfresh == 1 ==> 0 <= wk() && wk() <= rangeindex
 // a layer that this call downloaded is not marked "skip verification"
 //@   loop 2 invariant ghost_wfresh == 1 ==> !skipVerify[layers[wk()].Digest]
+// Frame of the call fn("verifying sha256 digest") between the two loops: the fact is proved just
+// before it (at the delete builtin that follows loop 2) and assumed again just after it (at the len
+// builtin that starts loop 3). fn is PullModel's func-typed parameter; govc has no contract key for a
+// call through it and forgets the whole heap there, although skipVerify and layers are fresh locals
+// that are never passed out of PullModel (explicit assumption A-fn in props/C03.json).
+//@   assert-at call delete #2 : ghost_wfresh == 1 ==> !skipVerify[layers[wk()].Digest]
+//@   assume-at call len #3 : ghost_wfresh == 1 ==> !skipVerify[layers[wk()].Digest]     -- A-fn: the progress callback does not write PullModel's locals
 //@   loop 3 invariant ghost_wrm == 0 && ghost_rm == 0 && ghost_mm == 0
 //@   loop 3 invariant 0 <= wk() && wk() < len(layers) ==> ghost_wdl == 1
 //@   loop 3 invariant ghost_wfresh == 1 ==> 0 <= wk() && wk() < len(layers)
 //@   loop 3 invariant ghost_wfresh == 1 ==> !skipVerify[layers[wk()].Digest]
 //@   loop 3 invariant ghost_wfresh == 1 && wk() <= rangeindex ==> ghost_wver == 1
+// a digest mismatch removes the blob before the error is returned (return after the verify failure)
+//@   assert-at return #5 : ghost_mm == 1 ==> ghost_rm == 1
+// STORE INVARIANT "a blob under its final name is verified": when PullModel returns - with or without
+// error - a layer that this call put under its final name has been verified or removed again.
+// (A later pull treats every existing blob file as a cache hit and never verifies it.)
+//@   assert-at return #3 : ghost_wfresh == 1 ==> ghost_wver == 1 || ghost_wrm == 1
+//@   assert-at return #4 : ghost_wfresh == 1 ==> ghost_wver == 1 || ghost_wrm == 1
+//@   assert-at return #5 : ghost_wfresh == 1 ==> ghost_wver == 1 || ghost_wrm == 1
+//@   assert-at return #6 : ghost_wfresh == 1 ==> ghost_wver == 1 || ghost_wrm == 1
+//@   assert-at return #7 : ghost_wfresh == 1 ==> ghost_wver == 1 || ghost_wrm == 1
+//@   assert-at return #8 : ghost_wfresh == 1 ==> ghost_wver == 1 || ghost_wrm == 1
+//@   assert-at return #9 : ghost_wfresh == 1 ==> ghost_wver == 1 || ghost_wrm == 1
+//@   assert-at return #10 : ghost_wfresh == 1 ==> ghost_wver == 1 || ghost_wrm == 1
 // the manifest is written only when every layer was obtained and every freshly downloaded one verified
 //@   assert-at call WriteFile #1 : 0 <= wk() && wk() < len(layers) ==> ghost_wdl == 1
 //@   assert-at call WriteFile #1 : ghost_wfresh == 1 ==> ghost_wver == 1
+
+// ==== C03 (B): blobDownload.run - the -partial file gets its final name only after every part
+// ==== goroutine returned nil and the file was closed ====
+// errgroup: the part goroutines run concurrently and are verified separately (closure run$2); what they
+// write (atomic counters, the part records, the data file) is not part of the ordering argument.
+//@ extern func golang.org/x/sync/errgroup.WithContext
+//@   modifies nothing
+//@ extern func golang.org/x/sync/errgroup.(*Group).SetLimit
+//@   modifies nothing
+//@ extern func golang.org/x/sync/errgroup.(*Group).Go
+//@   modifies nothing
+//@ extern func golang.org/x/sync/errgroup.(*Group).Wait
+//@   modifies nothing
+//@ extern func setSparse
+//@   modifies nothing
+
+// run$1 (direct-URL lookup, called in place): works on a fresh copy of opts; the only caller-visible
+// write is the scheme downgrade of requestURL in makeRequest. Trusted frame (extern): without a
+// contract govc-stable crashes while scanning this closure's body (nil map in funcBodyWrites), and
+// its frame cannot be checked: it calls the closure returned by newBackoff (no contract key) and
+// passes a nil header map to makeRequestWithRetry (frame check of `headers[all]` fails for nil).
+//@ extern func (*blobDownload).run$1
+//@   modifies requestURL.Scheme
+
+// downloadChunk runs the transfer in two goroutines; besides atomic counters, the data file and the
+// part record on disk it touches part.lastUpdated (under its mutex).
+//@ extern func (*blobDownload).downloadChunk
+//@   modifies part.lastUpdated
+// downloadChunk$2 (stall watchdog): same requirement on the immutable digest.
+//@ func (*blobDownload).downloadChunk$2
+//@   requires len(b.Digest) >= 19
+//@   loop 1 invariant b == old(b) && b.Digest == old(b.Digest)
+//@ func (*blobDownloadPart).StartsAt
+//@   modifies nothing
+//@ func (*blobDownloadPart).StopsAt
+//@   modifies nothing
+// run$2 is the body of one part goroutine. b.Digest is written only by the composite literal in
+// downloadBlob (before the download is shared), so the requirement is what run() itself requires.
+//@ func (*blobDownload).run$2
+//@   requires len(b.Digest) >= 19
+//@   loop 1 invariant b == old(b) && b.Digest == old(b.Digest)
+
+// Loops: 1 start part goroutines   2 remove part records.
+//@ func (*blobDownload).run
+//@   requires len(b.Digest) >= 19
+//@   ghost-at entry : ghost_waited := 0
+//@   ghost-at entry : ghost_closed := 0
+//@   ghost-at after call Wait #1 : ghost_waited := ite(result == nil, 1, 0)
+//@   ghost-at after call Close : ghost_closed := ite(result == nil, 1, 0)
+//@   assert-at call os.Rename #1 : ghost_waited == 1 && ghost_closed == 1
